@@ -74,7 +74,7 @@ func instScript(k instKind, p instPath, x string, bare bool) string {
 // chainCfg: X declares abstract m1 (and m2 unless m2InY); Y and Z each abstract or concrete and
 // implementing a subset of {m1, m2}.
 type chainCfg struct {
-	Src   string `json:"src"`    // "abstract" (X abstract class) | "interface" (X interface, Y implements) | "mixed" (m1 from interface, m2 from abstract class)
+	Src   string `json:"src"`     // "abstract" (X abstract class) | "interface" (X interface, Y implements) | "mixed" (m1 from interface, m2 from abstract class)
 	M2InY bool   `json:"m2_in_y"` // m2 is declared abstract by Y instead of X
 	YAbs  bool   `json:"y_abs"`
 	ZAbs  bool   `json:"z_abs"`
